@@ -456,7 +456,9 @@ impl Parser {
             return false;
         }
         for msg in &self.errors {
-            eprintln!("{}", msg);
+            // best effort: eprintln!() panics when stderr cannot be written
+            use std::io::Write;
+            let _ = writeln!(std::io::stderr(), "{}", msg);
         }
         true
     }
